@@ -175,6 +175,28 @@ CHECKS = {
             "Exploration level: most clauses have ~1.5 orders of magnitude between the solvers' own accuracy and the acceptance threshold "
             "(only linearity and robust-exact have > 3); every tested defect moves results by >= 1e-1.",
             "DESIGN.md section 5 C16"),
+    "C11": (MC, "TLA+/TLC exhaustive check of the image-enumeration algorithm against the declarative image set on integer lattices "
+                "(Periodic.tla) + TLC-decoded cases replayed into PeriodicGrid with the observed multisets judged by TLC",
+            "TLC checks, for 1.1e6 configurations (quick 5.5e4) in 1-3 dimensions with 0..dim integer lattice vectors of any sign, skew and "
+            "handedness, wrapped or not, points outside the cell, radii with 2r^2 odd plus 0 and inf, that the algorithm of periodicgrid.py in "
+            "exact rational arithmetic (pseudo-inverse reciprocal vectors, plane spacings, ceil/floor ranges decided by squaring, ball query per "
+            "displaced centre, stored position p - delta) yields exactly the declarative set {(i, t)} - complete, sound, each once - and that "
+            "zero lattice vectors reduce to the plain grid.  A seeded sample of configurations (3.5e3 quick, 5.2e4 thorough) is decoded by TLC, "
+            "run through PeriodicGrid(...).get_localgrid, and the observed (index, position, weight) lists are judged by TLC; constructor "
+            "attributes are compared with TLC-emitted exact values.",
+            "Trusted: TLC, integer lattices only; r = 0 with lattice vectors is judged one-sidedly (rounding in the SVD can miss an image lying "
+            "exactly on the centre).",
+            "DESIGN.md section 5 C11"),
+    "C18": (MC, "TLA+/TLC step-by-step model of the three integration routes (odometer product, chunked generators in lock-step, vectorised "
+                "partial application) against the nested-sum definition for every chunk size (NGrid.tla); all TLC-listed cases replayed on "
+                "MultiDomainGrid with integer data and judged by TLC",
+            "TLC checks for 1-3 (thorough 4) domains, grid sizes 1-3 (4), mixed 1D/3D points, repeated-grid mode and every chunk size "
+            "1..total+1 that all routes equal the nested sum, separable integrands give the product of single integrals, the weight and value "
+            "chunks stay aligned, nothing is dropped, and size/points/weights enumerate the product set in odometer order.  Every configuration "
+            "is replayed (12 492 integrate calls quick, 2.2e5 thorough) with the integrand given as a TLC-emitted lookup table; integer results "
+            "are judged by TLC.",
+            "Trusted: TLC; integer data only (accuracy of chunked float summation is not claimed).",
+            "DESIGN.md section 5 C18"),
 }
 
 NOT_YET = {}
